@@ -66,6 +66,7 @@ class Tr:
         self.kwparam = kwparam
         self.fresh_lists = set()
         self.value_lists = set(value_lists)
+        self.assumed_total = []
 
     def nm(self, s):
         self.names[s] = enc(s)
@@ -126,6 +127,11 @@ class Tr:
             if x is not None:
                 # the `_NN` suffix of a group member's name: kept, as a call the host interprets
                 return f"(.call {self.nm('__sfx02d__')} [{self.E(x)}] [] [])"
+            # any other f-string is an uninspected text; its sub-expressions are NOT evaluated — recorded, so that the
+            # assumption "formatting these cannot raise or have an effect" can be read off code_facts.json
+            for v in n.values:
+                if isinstance(v, ast.FormattedValue):
+                    self.assumed_total.append(ast.unparse(v.value))
             return ".ostr"
         if isinstance(n, ast.Name):
             # Python decides statically: a name the function assigns anywhere is local, every other name is module-level
@@ -210,7 +216,14 @@ class Tr:
                 return f"(.call {self.nm('isinstance')} [{self.E(n.args[0])}, (.str {self.nm(n.args[1].id)})] [] [])"
             if d is not None:
                 if d.endswith("Error") or d in ("StopIteration",):
-                    # exception constructors: the message text is not part of any modelled behaviour
+                    # exception constructors: the message text is not part of any modelled behaviour (its sub-expressions
+                    # are not evaluated either — recorded like those of other f-strings)
+                    for a in list(n.args) + [k.value for k in n.keywords]:
+                        for v in ast.walk(a):
+                            if isinstance(v, ast.FormattedValue):
+                                self.assumed_total.append(ast.unparse(v.value))
+                            elif isinstance(v, ast.Call) and not isinstance(a, ast.JoinedStr):
+                                self.assumed_total.append(ast.unparse(v))
                     return f"(.call {self.nm(d)} [] [] [])"
                 return f"(.call {self.nm(d)} {args} {kwn} {kwv})"
             if isinstance(n.func, ast.Attribute):
@@ -484,6 +497,8 @@ def main():
             out.append(f"/-- `{qual}` ({fname}:{node.lineno})\n    names: {legend} -/")
             out.append(f"def {ident} : Fn := {{\n  params := [{', '.join(tr.nm(p) for p in allp)}],\n  body := {body} }}")
             facts["functions"][qual] = dict(params=allp, names=sorted(tr.names))
+            if tr.assumed_total:
+                facts.setdefault("fstring_subexpressions_not_evaluated", {})[qual] = sorted(set(tr.assumed_total))
         except Untranslatable as e:
             facts["untranslatable"][qual] = str(e)
             out.append(f"/-- `{qual}`: outside the translatable fragment: {e} -/\ndef {ident} : Fn := {{ params := [], body := [] }}")
